@@ -143,6 +143,167 @@ fn c02_clauses(
     Ok(st)
 }
 
+
+// ---------------------------------------------------------------------------------------
+// large enumerated families (see props/large.rs): the same oracles on big structured inputs
+// ---------------------------------------------------------------------------------------
+
+use super::large::{self, LargeInput};
+
+fn cap32(alg: Algorithm, old: &[u32], new: &[u32]) -> Result<Vec<DiffOp>, String> {
+    capture(alg, old, 0..old.len(), new, 0..new.len())
+}
+
+/// captured ops with the virtual clock expiring at probe k; (ops, probes)
+fn cap32_deadline(alg: Algorithm, old: &[u32], new: &[u32], k: u64) -> Result<(Vec<DiffOp>, u64), String> {
+    let mut probes = 0;
+    let r = subject(|| {
+        let clock = arm_clock(k);
+        let ops = similar::capture_diff_deadline(alg, old, 0..old.len(), new, 0..new.len(), some_deadline());
+        probes = clock.probes.get();
+        ops
+    })
+    .map_err(|p| format!("capture_diff_deadline with expiry at probe {}: panic: {}", k, p))?;
+    Ok((r, probes))
+}
+
+fn expiry_points(pinf: u64) -> Vec<u64> {
+    let mut v = vec![0, 1, 2, 5, pinf / 3, pinf / 2, pinf.saturating_sub(2), pinf.saturating_sub(1)];
+    v.retain(|&k| k < pinf);
+    v.sort();
+    v.dedup();
+    v
+}
+
+pub fn c02_large(alg: Algorithm, inp: &LargeInput) -> Result<(bool, u64, u64), String> {
+    let (old, new) = (&inp.old[..], &inp.new[..]);
+    let (n, m) = (old.len(), new.len());
+    let ops = cap32(alg, old, new)?;
+    let chk = |ops: &[DiffOp], what: &str| -> Result<OpsStats, String> {
+        let st = validate_ops(ops, old, 0..n, new, 0..m, false).map_err(|e| format!("{}: {}", what, e))?;
+        apply_ops(ops, old, 0..n, new, 0..m).map_err(|e| format!("{}: {}", what, e))?;
+        if old == new && (st.n_change != 0 || (n == 0 && !ops.is_empty())) {
+            return Err(format!("{}: identical inputs but ops {:?}", what, ops));
+        }
+        let r = similar::get_diff_ratio(ops, n, m);
+        if !(0.0..=1.0).contains(&r) || (r == 1.0) != (old == new) {
+            return Err(format!("{}: ratio {}", what, r));
+        }
+        Ok(st)
+    };
+    let st = chk(&ops, "capture_diff")?;
+    let (po, pn) = (7usize, 3usize);
+    let fo = large::embed32(old, po, 2, new);
+    let fnw = large::embed32(new, pn, 2, old);
+    let sub = capture(alg, &fo[..], po..po + n, &fnw[..], pn..pn + m)?;
+    validate_ops(&sub, &fo, po..po + n, &fnw, pn..pn + m, false)
+        .map_err(|e| format!("capture_diff on sub-ranges old {:?} new {:?}: {}", po..po + n, pn..pn + m, e))?;
+    // the text-diff path (above 100 tokens it maps items to integers first)
+    {
+        let so: Vec<String> = old.iter().map(|x| format!("{}\n", x)).collect();
+        let sn: Vec<String> = new.iter().map(|x| format!("{}\n", x)).collect();
+        let ro: Vec<&str> = so.iter().map(|s| s.as_str()).collect();
+        let rn: Vec<&str> = sn.iter().map(|s| s.as_str()).collect();
+        let (to, tn) = (so.concat(), sn.concat());
+        let (t1, t2, r1) = subject(|| {
+            let d = TextDiff::configure().algorithm(alg).diff_slices(&ro, &rn);
+            let dl = TextDiff::configure().algorithm(alg).diff_lines(&to, &tn);
+            (d.ops().to_vec(), dl.ops().to_vec(), d.ratio())
+        })
+        .map_err(|p| format!("TextDiff: panic: {}", p))?;
+        chk(&t1, "TextDiff::ops (diff_slices)")?;
+        chk(&t2, "TextDiff::ops (diff_lines)")?;
+        if !(0.0..=1.0).contains(&r1) || (r1 == 1.0) != (old == new) {
+            return Err(format!("TextDiff::ratio = {}", r1));
+        }
+    }
+    let (_, pinf) = cap32_deadline(alg, old, new, u64::MAX)?;
+    let mut tr = ops.len() as u64 + sub.len() as u64;
+    for k in expiry_points(pinf) {
+        let (o, _) = cap32_deadline(alg, old, new, k)?;
+        chk(&o, &format!("capture_diff_deadline, clock expiring at probe {} of {}", k, pinf))?;
+        tr += o.len() as u64;
+    }
+    Ok((st.n_equal > 0 && st.n_change > 0, tr, ops_fp(&ops)))
+}
+
+pub fn c09_large(alg: Algorithm, inp: &LargeInput) -> Result<(bool, u64, u64), String> {
+    let (old, new) = (&inp.old[..], &inp.new[..]);
+    let ops = cap32(alg, old, new)?;
+    normal_form(&ops, old, new).map_err(|e| format!("capture_diff: {}", e))?;
+    let (_, pinf) = cap32_deadline(alg, old, new, u64::MAX)?;
+    let mut tr = ops.len() as u64;
+    for k in expiry_points(pinf) {
+        let (o, _) = cap32_deadline(alg, old, new, k)?;
+        normal_form(&o, old, new).map_err(|e| format!("capture_diff_deadline, clock expiring at probe {} of {}: {}", k, pinf, e))?;
+        tr += o.len() as u64;
+    }
+    Ok((ops.len() >= 2, tr, ops_fp(&ops)))
+}
+
+pub fn c03_large(alg: Algorithm, inp: &LargeInput) -> Result<(bool, u64, u64), String> {
+    let (old, new) = (&inp.old[..], &inp.new[..]);
+    let (n, m) = (old.len(), new.len());
+    let l = lcs_len(old, new);
+    let want = n + m - 2 * l;
+    let base = raw_stream(alg, 0, old, 0..n, new, 0..m)?;
+    let st = validate_stream(&base, old, 0..n, new, 0..m, true).map_err(|e| format!("raw stream invalid: {}", e))?;
+    if st.deleted + st.inserted != want {
+        return Err(format!(
+            "raw {} script deletes {} and inserts {} items; a shortest script has {} (N={} M={} LCS={})",
+            alg_name(alg), st.deleted, st.inserted, want, n, m, l
+        ));
+    }
+    let ops = cap32(alg, old, new)?;
+    let so = validate_ops(&ops, old, 0..n, new, 0..m, false)?;
+    if so.deleted + so.inserted != want || so.equal_items != l {
+        return Err(format!(
+            "captured {} ops: {} deleted {} inserted {} equal; a shortest script has {} changes and {} equal items",
+            alg_name(alg), so.deleted, so.inserted, so.equal_items, want, l
+        ));
+    }
+    let r = similar::get_diff_ratio(&ops, n, m);
+    let expect = if n + m == 0 { 1.0 } else { 2.0 * l as f32 / (n + m) as f32 };
+    if (r - expect).abs() > 1e-6 {
+        return Err(format!("ratio {} but 2*LCS/(N+M) = {}", r, expect));
+    }
+    Ok((l > 0 && l < n.min(m), base.len() as u64 + ops.len() as u64, ops_fp(&ops)))
+}
+
+pub fn c11_large(alg: Algorithm, inp: &LargeInput) -> Exact {
+    let (old, new) = (&inp.old[..], &inp.new[..]);
+    let (n, m) = (old.len(), new.len());
+    let run = |repair: bool, exact: bool| -> Result<(Vec<DiffOp>, u64), String> {
+        let mut swaps = 0;
+        let ops = subject(|| {
+            similar::verif::take_swaps();
+            similar::verif::set_swap_repair(repair);
+            let ops = similar::capture_diff(alg, old, 0..n, new, 0..m);
+            swaps = similar::verif::take_swaps();
+            ops
+        })
+        .map_err(|p| format!("panic: {}", p))?;
+        validate_ops(&ops, old, 0..n, new, 0..m, exact).map_err(|e| format!("capture_diff: {}", e))?;
+        Ok((ops, swaps))
+    };
+    match run(false, true) {
+        Ok((ops, _)) => Exact::Ok(Out {
+            nontrivial: ops.len() >= 2,
+            transitions: ops.len() as u64,
+            fp: ops_fp(&ops),
+        }),
+        Err(e) => {
+            if let Err(e2) = run(false, false) {
+                return Exact::Fail(format!("{} [not a carried-index problem: {}]", e, e2));
+            }
+            match run(true, true) {
+                Ok((_, swaps)) if swaps > 0 => Exact::Kf1(e),
+                _ => Exact::Fail(e),
+            }
+        }
+    }
+}
+
 // ---------------------------------------------------------------------------------------
 // C02
 // ---------------------------------------------------------------------------------------
@@ -334,10 +495,17 @@ pub fn c02_run(cfg: &RunCfg) -> CheckReport {
         });
     });
     rep.part("deadline", json!({"scopes": dspace.describe(), "expiry": "every probe index k in 0..probes(never-expiring run), plus never"}), ex);
+    if !rep.has_violation() {
+        large::run_part(cfg, &mut rep, &ALGS, &|a| if a == Algorithm::Lcs { 300 } else { usize::MAX }, c02_large);
+    }
     rep
 }
 
 pub fn c02_replay(case: &Value) -> Result<String, String> {
+    if let Some(r) = large::resolve(case) {
+        let (alg, inp) = r?;
+        return c02_large(alg, &inp).map(|o| format!("holds; fingerprint {:x}", o.2));
+    }
     let alg = parse_alg(case)?;
     let old = parse_seq(case, "old")?;
     let new = parse_seq(case, "new")?;
@@ -444,10 +612,17 @@ pub fn c09_run(cfg: &RunCfg) -> CheckReport {
         });
     });
     rep.part("deadline", json!({"scopes": dspace.describe(), "expiry": "every probe index"}), ex);
+    if !rep.has_violation() {
+        large::run_part(cfg, &mut rep, &ALGS, &|a| if a == Algorithm::Lcs { 300 } else { usize::MAX }, c09_large);
+    }
     rep
 }
 
 pub fn c09_replay(case: &Value) -> Result<String, String> {
+    if let Some(r) = large::resolve(case) {
+        let (alg, inp) = r?;
+        return c09_large(alg, &inp).map(|o| format!("holds; fingerprint {:x}", o.2));
+    }
     let alg = parse_alg(case)?;
     let old = parse_seq(case, "old")?;
     let new = parse_seq(case, "new")?;
@@ -582,10 +757,17 @@ pub fn c03_run(cfg: &RunCfg) -> CheckReport {
         });
     });
     rep.part("pairs", json!({"scopes": space.describe(), "algorithms": ["Myers", "Lcs"]}), ex);
+    if !rep.has_violation() {
+        large::run_part(cfg, &mut rep, &MIN_ALGS, &|a| if a == Algorithm::Lcs { 300 } else { usize::MAX }, c03_large);
+    }
     rep
 }
 
 pub fn c03_replay(case: &Value) -> Result<String, String> {
+    if let Some(r) = large::resolve(case) {
+        let (alg, inp) = r?;
+        return c03_large(alg, &inp).map(|o| format!("holds; fingerprint {:x}", o.2));
+    }
     let alg = parse_alg(case)?;
     let old = parse_seq(case, "old")?;
     let new = parse_seq(case, "new")?;
@@ -728,10 +910,47 @@ pub fn c11_run(cfg: &RunCfg) -> CheckReport {
         });
     });
     rep.part("pairs", json!({"scopes": space.describe()}), ex);
+    if rep.has_violation() {
+        return rep;
+    }
+    let inputs = large::all(cfg.tier, cfg.seed);
+    let mut work = vec![];
+    for (i, inp) in inputs.iter().enumerate() {
+        for &a in ALGS.iter() {
+            if a != Algorithm::Lcs || inp.old.len().max(inp.new.len()) <= 300 {
+                work.push((a, i));
+            }
+        }
+    }
+    let ex = explore(cfg, work.len(), |shard, acc| {
+        let (alg, i) = work[shard];
+        let inp = &inputs[i];
+        match c11_large(alg, inp) {
+            Exact::Ok(o) => {
+                if shard % 97 == 0 {
+                    acc.sample(large::case_json(alg, inp, cfg.seed));
+                }
+                acc.ok(o.nontrivial, o.transitions, o.fp)
+            }
+            Exact::Kf1(e) if kf1_listed => acc.known("KF1", || format!("{} {}: {}", alg_name(alg), inp.name, e)),
+            Exact::Kf1(e) | Exact::Fail(e) => {
+                acc.violation(|| (large::case_json(alg, inp, cfg.seed), format!("{}: {}", inp.name, e)))
+            }
+        }
+    });
+    rep.part("large-families", large::describe(cfg.tier), ex);
     rep
 }
 
 pub fn c11_replay(case: &Value) -> Result<String, String> {
+    if let Some(r) = large::resolve(case) {
+        let (alg, inp) = r?;
+        return match c11_large(alg, &inp) {
+            Exact::Ok(o) => Ok(format!("holds; fingerprint {:x}", o.fp)),
+            Exact::Kf1(e) => kf1_or_violation("C11", e),
+            Exact::Fail(e) => Err(e),
+        };
+    }
     let alg = parse_alg(case)?;
     let old = parse_seq(case, "old")?;
     let new = parse_seq(case, "new")?;
